@@ -188,7 +188,7 @@ func runsFor(prop, tier string) []run {
 		// snapshots that a revert left outside the chain are targets too: revert to them, unlink them, mark them removed
 		c5 := c
 		c5.InitOps = []string{"W:0:16", "SnapU", "W:0:8", "SnapU", "W:8:8", "SnapA", "W:4:8", "Revert:0"}
-		c5.Alphabet = []string{"W", "SnapU", "SnapA", "Rm", "Mark", "Revert", "RevertO", "RmO", "MarkO", "ReopenP", "Reload", "Checkpoint"}
+		c5.Alphabet = []string{"W", "SnapU", "SnapA", "SnapDupO", "Rm", "Mark", "Revert", "RevertO", "RmO", "MarkO", "ReopenP", "Reload", "Checkpoint"}
 		c5.Oracles = []string{"chain", "read", "snapdirect", "snaprevert", "crashopen", "reopen"}
 		c5.MaxSnaps = 5
 		c5.MaxWrites = 6
